@@ -548,13 +548,20 @@ fn expand_string_assertion(value_expr: &TokenStream, pattern: &PatternString) ->
     quote_spanned! {span=> {
         // Take a reference to the expression result so that:
         // 1. Temporaries (e.g. from method calls returning String) live for the
-        //    entire block - fixes E0716 "temporary dropped while borrowed".
+        //    entire block - fixes E0716 "temporary dropped while borrowed". A `match`
+        //    scrutinee keeps every temporary of the expression alive, also the ones a
+        //    `let` does not extend (`name.to_lowercase().as_str()`).
         // 2. Reference-typed expressions (e.g. from index operations) are not
         //    moved - fixes E0507 "cannot move out of shared reference".
-        let __assert_struct_tmp = &#value_expr;
-        let actual = (*__assert_struct_tmp).as_ref();
-        if !matches!(actual, #lit) {
-            #error_push
+        match &#value_expr {
+            __assert_struct_ref => {
+                // (the name type-inference diagnostics refer to)
+                let __assert_struct_tmp = __assert_struct_ref;
+                let actual = (*__assert_struct_tmp).as_ref();
+                if !matches!(actual, #lit) {
+                    #error_push
+                }
+            }
         }
     }}
 }
@@ -815,20 +822,22 @@ fn expand_set_assertion(value_expr: &TokenStream, pattern: &PatternSet) -> Token
         .collect();
 
     quote! {
-        {
-            // Bind the source first: a `let` of a reference extends the lifetime of a
-            // temporary (e.g. a method result returned by value) to the whole block.
-            let __set_src = &(#value_expr);
-            let __set_coll: ::std::vec::Vec<_> = __set_src.into_iter().collect();
-            #(#pred_defs)*
-            let __set_preds: &[&dyn ::std::ops::Fn(usize) -> bool] = &[#(&#pred_names),*];
-            ::assert_struct::__macro_support::set_match(
-                __set_coll.len(),
-                #rest,
-                __set_preds,
-                &mut __report,
-                &#node_ident,
-            );
+        // Bind the source first, as a `match` scrutinee: every temporary of the expression
+        // (a method result returned by value, also one an outer call borrows from) lives
+        // for the whole block.
+        match &(#value_expr) {
+            __set_src => {
+                let __set_coll: ::std::vec::Vec<_> = __set_src.into_iter().collect();
+                #(#pred_defs)*
+                let __set_preds: &[&dyn ::std::ops::Fn(usize) -> bool] = &[#(&#pred_names),*];
+                ::assert_struct::__macro_support::set_match(
+                    __set_coll.len(),
+                    #rest,
+                    __set_preds,
+                    &mut __report,
+                    &#node_ident,
+                );
+            }
         }
     }
 }
